@@ -431,8 +431,113 @@ fn many_versions_world(n: usize, cached_one: usize) -> crate::registry::RegWorld
   }
 }
 
+/// one package whose version manifest carries module-graph information for more modules than any
+/// plausible bound on simultaneously outstanding content loads; some of its files fail to load and
+/// are imported again, with import attributes, by modules visited late
+fn wide_package_world(rng: &mut Rng, n: usize) -> crate::registry::RegWorld {
+  use crate::registry::*;
+  use crate::world::Item;
+  let bad: Vec<usize> = (0..1 + rng.below(3)).map(|_| rng.below(n)).collect();
+  let mut files = vec![];
+  let mut root_items = vec![];
+  for i in 0..n {
+    root_items.push(Item { form: Form::Namespace, text: format!("./f{}.ts", i) });
+    let mut items = vec![];
+    for _ in 0..rng.below(3) {
+      let t = rng.below(n);
+      items.push(Item { form: if rng.chance(1, 4) { Form::Dynamic } else { Form::Namespace }, text: format!("./f{}.ts", t) });
+    }
+    if rng.chance(1, 6) {
+      items.push(Item { form: Form::Namespace, text: format!("./gone{}.ts", i) });
+    }
+    // the modules visited last refer to the failing ones again, in another way
+    if i + 6 >= n || rng.chance(1, 8) {
+      let b = bad[rng.below(bad.len())];
+      let form = match rng.below(3) {
+        0 => Form::With("text".into()),
+        1 => Form::With("json".into()),
+        _ => Form::Dynamic,
+      };
+      items.push(Item { form, text: format!("./f{}.ts", b) });
+    }
+    let fault = if bad.contains(&i) { if rng.chance(1, 2) { Fault::Missing } else { Fault::Error } } else { Fault::None };
+    files.push(RegFile { path: format!("/f{}.ts", i), items, raw: None, manifest: ManifestEntry::Ok, fault, tampered_cache: false });
+  }
+  files.insert(0, RegFile { path: "/mod.ts".into(), items: root_items, raw: None, manifest: ManifestEntry::Ok, fault: Fault::None, tampered_cache: false });
+  RegWorld {
+    pkgs: vec![RegPkg {
+      name: "@s/a".into(),
+      versions: vec![RegVer {
+        version: "1.0.0".into(),
+        yanked: false,
+        created_day: None,
+        exports: ExportsDesc::Str("./mod.ts".into()),
+        files,
+        mg: MgKind::V2,
+        fault: Fault::None,
+        lockfile_checksum: None,
+      }],
+      fault: Fault::None,
+      stale: None,
+    }],
+    user: vec![UserFile { url: "file:///main.ts".into(), items: vec![Item { form: Form::Namespace, text: "jsr:@s/a@1".into() }] }],
+    roots: vec!["file:///main.ts".into()],
+    kind: deno_graph::GraphKind::All,
+    prefer_cached: false,
+    passthrough: false,
+    skip_dynamic_deps: false,
+    cutoff_day: None,
+    excl: vec![],
+    excl_prefixes: vec![],
+    cached: std::collections::BTreeSet::new(),
+    has_locker: false,
+    lock_manifests: vec![],
+    lock_remote: vec![],
+    seeds: vec![],
+  }
+}
+
 fn registry_schedules(report: &mut Report, tier: &str, rng: &mut Rng) {
   use crate::registry::*;
+  // wide packages: many content loads outstanding at once
+  for k in 0..(if tier == "thorough" { 30 } else { 5 }) {
+    let mut wr = rng.fork();
+    let nfiles = 36 + wr.below(14);
+    let w = wide_package_world(&mut wr, nfiles);
+    let (first, factors) = run_reg_schedule(&w, &[], 0);
+    let RunOutcome::Done { shown: s0, json: j0, errors: e0 } = first else {
+      report.fail("oracle", "build-did-not-finish-under-schedule", format!("wide package world: {:?}", first).chars().take(300).collect(), w.describe());
+      continue;
+    };
+    let max_open = factors.iter().copied().max().unwrap_or(0);
+    report.count(&format!("registry:wide-package:max-outstanding>32:{}", max_open > 32));
+    let reps = if tier == "thorough" { 40 } else { 12 };
+    for r in 0..reps {
+      // last-in-first-out, first-in-first-out with a few stragglers, and random orders
+      let ch: Vec<usize> = match r % 3 {
+        0 => (0..4000).map(|_| rng.below(64)).collect(),
+        1 => (0..4000).map(|_| 1_000_003).collect(),
+        _ => (0..4000).map(|i| if i % 7 == 0 { rng.below(5) } else { 1 }).collect(),
+      };
+      let (o, _) = run_reg_schedule(&w, &ch, r % 2);
+      report.evaluations += 1;
+      match o {
+        RunOutcome::Done { shown, json, errors } => {
+          if shown != s0 || json != j0 || errors != e0 {
+            report.fail(
+              "oracle",
+              "result-depends-on-completion-order",
+              format!("wide package ({} outstanding loads at most), schedule {}: differs from the reference run\n  reference errors: {:?}\n  this run:         {:?}", max_open, r, e0, errors),
+              json!({"registry_world": w.describe(), "schedule_kind": r % 3}),
+            );
+            break;
+          }
+        }
+        other => report.fail("oracle", "build-did-not-finish-under-schedule", format!("wide package world: {:?}", other).chars().take(300).collect(), w.describe()),
+      }
+    }
+    report.nontrivial.insert(format!("wide-package/{}", k));
+  }
   // repeated runs with fresh hasher state: a registry map with many versions
   for (n, c) in [(24usize, 3usize), (40, 17), (20, 0)] {
     let w = many_versions_world(n, c);
